@@ -15,15 +15,17 @@ CONSTANTS MaxOps, MaxLive, KeepHist, Prog
 VARIABLES live, regs, last, n, hist
 vars == <<live, regs, last, n, hist>>
 
-P == IF Prog = "regex" THEN SessRegex ELSE IF Prog = "selector" THEN SessSelector ELSE SessPlain
+P == IF Prog = "regex" THEN SessRegex ELSE IF Prog = "selector" THEN SessSelector ELSE IF Prog = "desc" THEN SessDesc ELSE SessPlain
 DP == DescribeProg(P.prog)
 Classes == P.classes
 Raws(c) == P.raws[c]
 Kws(c) == P.kws[c]
 Sets(c) == P.sets[c]
 
-PackAll(lv, rg) == [i \in 1..Len(lv) |-> DoPack(DP, lv[i].cls, lv[i].vals, rg)]
-Snap(lv, rg) == [i \in 1..Len(lv) |-> [cls |-> lv[i].cls, vals |-> lv[i].vals, pack |-> DoPack(DP, lv[i].cls, lv[i].vals, rg)]]
+\* a live packet: [cls, vals, exp]; exp = its described fields that were assigned explicitly
+PackOf(x, rg) == DoPackE(DP, x.cls, x.vals, rg, x.exp)
+Snap(lv, rg) == [i \in 1..Len(lv) |-> [cls |-> lv[i].cls, vals |-> VisibleOf(P.prog, lv[i].cls, lv[i].vals, lv[i].exp), pack |-> PackOf(lv[i], rg)]]
+Names(K) == {K[j].n : j \in 1..Len(K)}
 
 NoOp == [op |-> "init", pid |-> 0, cls |-> "", arg |-> <<>>, ok |-> TRUE, dev |-> FALSE]
 Log(o, lv, rg) == hist' = IF KeepHist THEN Append(hist, [o |-> o, snap |-> Snap(lv, rg)]) ELSE hist
@@ -35,17 +37,17 @@ Do(o, lv, rg) == /\ live' = lv /\ regs' = rg /\ last' = o /\ n' = n + 1 /\ Log(o
 New == /\ Len(live) < MaxLive
        /\ \E c \in Classes : \E K \in Kws(c) :
              Do([op |-> "new", pid |-> Len(live) + 1, cls |-> c, arg |-> K, ok |-> TRUE, dev |-> FALSE],
-                Append(live, [cls |-> c, vals |-> Construct(P.prog, c, K)]), regs)
+                Append(live, [cls |-> c, vals |-> Construct(P.prog, c, K), exp |-> Names(K) \cap DescNamesOf(P.prog, c)]), regs)
 Unpack == /\ Len(live) < MaxLive
           /\ \E c \in Classes : \E raw \in Raws(c) :
                 LET r == DoUnpack(DP, c, raw, regs) IN
                 IF r.ok THEN Do([op |-> "unpack", pid |-> Len(live) + 1, cls |-> c, arg |-> raw, ok |-> TRUE,
                                  dev |-> RegsChanged(regs, r.regs)],
-                                Append(live, [cls |-> c, vals |-> r.vals]), r.regs)
+                                Append(live, [cls |-> c, vals |-> r.vals, exp |-> {}]), r.regs)
                 ELSE Do([op |-> "unpack", pid |-> 0, cls |-> c, arg |-> raw, ok |-> FALSE, dev |-> RegsChanged(regs, r.regs)], live, r.regs)
 SetAttr == \E i \in 1..Len(live) : \E s \in Sets(live[i].cls) :
               Do([op |-> "set", pid |-> i, cls |-> live[i].cls, arg |-> s, ok |-> TRUE, dev |-> FALSE],
-                 [live EXCEPT ![i].vals = SetVal(@, s.n, s.v)], regs)
+                 [live EXCEPT ![i].vals = SetVal(@, s.n, s.v), ![i].exp = @ \cup ({s.n} \cap DescNamesOf(P.prog, live[i].cls))], regs)
 \* mutate a nested object in place: append to a list value / assign a field of a nested packet
 Mutate == \E i \in 1..Len(live) : \E j \in 1..Len(live[i].vals) :
              LET e == live[i].vals[j] IN
@@ -56,7 +58,7 @@ Mutate == \E i \in 1..Len(live) : \E j \in 1..Len(live[i].vals) :
                    Do([op |-> "setnested", pid |-> i, cls |-> live[i].cls, arg |-> [n |-> e.n, f |-> e.v.vals[1].n, v |-> IntV(9)], ok |-> TRUE, dev |-> FALSE],
                       [live EXCEPT ![i].vals = SetVal(@, e.n, PktV(e.v.cls, SetVal(e.v.vals, e.v.vals[1].n, IntV(9))))], regs))
 Pack == \E i \in 1..Len(live) :
-           Do([op |-> "pack", pid |-> i, cls |-> live[i].cls, arg |-> <<>>, ok |-> DoPack(DP, live[i].cls, live[i].vals, regs).ok, dev |-> FALSE],
+           Do([op |-> "pack", pid |-> i, cls |-> live[i].cls, arg |-> <<>>, ok |-> PackOf(live[i], regs).ok, dev |-> FALSE],
               live, regs)
 
 \* the user mutates a prototype INSTANCE they handed to Ref(...) earlier: nothing that exists, and no packet constructed
@@ -72,7 +74,7 @@ Touched(o) == o.pid
 Prop_C13_Bystander ==
     [][\A i \in 1..Len(live) :
           (i # Touched(last') /\ ~last'.dev) =>
-              (live'[i] = live[i] /\ DoPack(DP, live[i].cls, live[i].vals, regs') = DoPack(DP, live[i].cls, live[i].vals, regs))]_vars
+              (live'[i] = live[i] /\ PackOf(live[i], regs') = PackOf(live[i], regs))]_vars
 Prop_C13_PackPure == [][last'.op = "pack" => (live' = live /\ regs' = regs)]_vars
 
 Emit == (KeepHist /\ n = MaxOps) =>
